@@ -945,8 +945,11 @@ def _c_install_status_inverted(case):
     the first file, or the phase failed on the python side although bash was told status 0 (the exception raised for a
     *successful* install also finishes the installer coroutine, so a later request may find it dead)"""
     own = {"false-success", "build-failed-though-status-0"}
+    # consequences for the requests after it: the fallback installer stays selected on the helper instance, so the
+    # follow-up / a dodir sentinel run the external command too and hit the same inverted test
+    later = DEAD | {"followup-failed", "sentinel-failed"}
     kinds = set(case["kinds"])
-    return case["helper"] in FALLBACK_CAPABLE and case["optmode"] in ("mux", "bogus") and bool(kinds & own) and kinds <= own | DEAD
+    return case["helper"] in FALLBACK_CAPABLE and case["optmode"] in ("mux", "bogus") and bool(kinds & own) and kinds <= own | later
 
 
 def _c_multiline_message(case):
